@@ -358,6 +358,9 @@ func (c *Check) Finish() {
 	}
 	sort.Strings(kf)
 	cov["known_findings_hit"] = kf
+	if c.assumptions == nil {
+		c.assumptions = []string{}
+	}
 	out := map[string]interface{}{
 		"property_id": c.ID, "tier": c.Tier, "seed": c.Seed, "level": c.Level,
 		"coverage": cov, "assumptions": c.assumptions,
